@@ -860,6 +860,86 @@ Proof.
   rewrite odd_b2n, (decode_to_exact hb us extra Hseg Hlt). reflexivity.
 Qed.
 
+(* ------------------------------------------------------------------------------------- *)
+(** * a formula's string result over STRING + CONTINUE records                            *)
+(* ------------------------------------------------------------------------------------- *)
+
+Lemma legal_fstring_parts : forall us hb cuts, legal_fstring us hb cuts = true ->
+  len us <= 65535 /\ all_lt 65536 us = true /\ cuts_legal us hb cuts = true.
+Proof.
+  intros us hb cuts H. unfold legal_fstring in H.
+  repeat (apply andb_true_iff in H; destruct H as [H ?]). repeat split; try assumption; lia.
+Qed.
+
+(* a cut inside the character data always leaves a CONTINUE record behind the STRING record *)
+Lemma char_items_cut_conts : forall us hb n hb' cs rest,
+  snd (frags (char_items us hb ((n, hb') :: cs) ++ rest)) <> [].
+Proof. intros. cbn [char_items app]. rewrite frags_B, frags_C. cbn [snd]. discriminate. Qed.
+
+(* Record::cont is Some: the arm reads cch, the flag, and the characters through read_dbcs *)
+Lemma string_arm_conts : forall us hb cuts rest,
+  legal_fstring us hb cuts = true ->
+  snd (frags (char_items us hb cuts ++ rest)) <> [] ->
+  string_arm (fst (frags (fstring_items us hb cuts ++ rest)))
+             (cont_opt (snd (frags (fstring_items us hb cuts ++ rest)))) = Ok (utf16_decode us).
+Proof.
+  intros us hb cuts rest Hl Hne.
+  destruct (legal_fstring_parts _ _ _ Hl) as (Hcch & Hlt & Hcuts).
+  pose proof (read_dbcs_ok cuts us hb rest Hcuts Hlt) as Hrd.
+  unfold fstring_items, units. cbn [app]. rewrite frags_B. cbn [fst snd].
+  destruct (frags (char_items us hb cuts ++ rest)) as [d cs]. cbn [fst snd] in *.
+  destruct cs as [|c cs]; [congruence|]. cbn [cont_opt]. unfold string_arm.
+  rewrite <- app_assoc.
+  assert (Hlen : (len (le16 (len us) ++ [b2n hb] ++ d) <? 3) = false).
+  { unfold le16. cbn [app]. rewrite !len_cons. lia. }
+  rewrite Hlen. rewrite read_u16_le16. cbn [obind].
+  unfold le16. cbn [app nth]. change (drop 3 (?a :: ?b :: ?c0 :: ?x)) with x.
+  rewrite odd_b2n. unfold bytes in *. rewrite Hrd. reflexivity.
+Qed.
+
+(* C12 for a formula's string result: whatever the cuts of the character data over the STRING
+   record and its CONTINUE records (also between the halves of a surrogate pair, also leaving empty
+   segments), whatever 8/16-bit packing each fragment announces in its own flag byte, and whatever
+   follows in the CONTINUE queue ([rest]: e.g. CONTINUE records holding nothing but a flag byte),
+   the 0x0207 arm of the sheet loop returns the stored text.  Without any CONTINUE record the arm
+   is parse_string on the record's own bytes. *)
+Theorem formula_string_any_split : forall us hb cuts rest,
+  legal_fstring us hb cuts = true ->
+  string_arm (fst (frags (fstring_items us hb cuts ++ rest)))
+             (cont_opt (snd (frags (fstring_items us hb cuts ++ rest)))) = Ok (utf16_decode us).
+Proof.
+  intros us hb cuts rest Hl. destruct cuts as [|[n hb'] cs].
+  - destruct (snd (frags rest)) as [|c cs] eqn:E.
+    + destruct (legal_fstring_parts _ _ _ Hl) as (Hcch & Hlt & Hcuts).
+      cbn [cuts_legal] in Hcuts.
+      unfold fstring_items, units. cbn [char_items app]. rewrite !frags_B. cbn [fst snd].
+      rewrite E. cbn [cont_opt]. unfold string_arm.
+      replace ((le16 (len us) ++ [b2n hb]) ++ seg_bytes hb us ++ fst (frags rest))
+        with (xl_string hb us ++ fst (frags rest))
+        by (unfold xl_string; rewrite <- !app_assoc; reflexivity).
+      apply parse_string_ok. unfold legal_xl_string.
+      rewrite Hlt, Hcuts. replace (len us <=? 65535) with true by lia. reflexivity.
+    + apply string_arm_conts; [exact Hl|].
+      cbn [char_items app]. rewrite frags_B. cbn [snd]. rewrite E. discriminate.
+  - apply string_arm_conts; [exact Hl | apply char_items_cut_conts].
+Qed.
+
+Corollary fstring_encode_ok : forall us hb cuts,
+  legal_fstring us hb cuts = true ->
+  string_arm (fst (fstring_encode us hb cuts)) (cont_opt (snd (fstring_encode us hb cuts)))
+  = Ok (utf16_decode us).
+Proof.
+  intros us hb cuts Hl. unfold fstring_encode.
+  rewrite <- (app_nil_r (fstring_items us hb cuts)). apply formula_string_any_split, Hl.
+Qed.
+
+(* two legal fragmentations / packings of the same result read identically *)
+Corollary fstring_layout_irrelevant : forall us hb cuts hb' cuts',
+  legal_fstring us hb cuts = true -> legal_fstring us hb' cuts' = true ->
+  string_arm (fst (fstring_encode us hb cuts)) (cont_opt (snd (fstring_encode us hb cuts))) =
+  string_arm (fst (fstring_encode us hb' cuts')) (cont_opt (snd (fstring_encode us hb' cuts'))).
+Proof. intros. rewrite !fstring_encode_ok by assumption. reflexivity. Qed.
+
 Theorem parse_label_ok : forall row col ixfe hb us,
   legal_xl_string hb us = true ->
   parse_label (label_body row col ixfe hb us) = Ok (Some (row, col, utf16_decode us)).
@@ -1003,6 +1083,34 @@ Proof.
       rewrite G0, GL, len_app. destruct tail; [congruence|]. rewrite len_cons.
       apply andb_true_iff. split; [lia | reflexivity]. }
     rewrite Hsc.
+    rewrite (take_conts_ok (c :: cs) tail _ [] Hcs); [reflexivity | | exact Ht | exact Hnc].
+    rewrite app_length. pose proof (length_frames (c :: cs)) as HF. unfold bytes in *. lia.
+Qed.
+
+(* the same for a record of any type (the STRING record of a formula and its CONTINUE records) *)
+Theorem next_record_conts : forall t st tail,
+  len (fst st) <= 65535 -> forallb (fun c => len c <=? 65535) (snd st) = true ->
+  tail <> [] -> starts_continue tail = false ->
+  next_record (frame_rec t st ++ tail) = Some (Ok ((t, fst st, cont_opt (snd st)), tail)).
+Proof.
+  intros t [d cs] tail Hd Hcs Ht Hnc. cbn [fst snd] in *. unfold frame_rec. cbn [fst snd].
+  rewrite <- app_assoc.
+  destruct (frame_fields t d (flat_map (frame 60) cs ++ tail)) as (F0 & F2 & FL & FT & FD);
+    [lia|].
+  unfold next_record. rewrite F0, F2, FL, FT, FD.
+  replace (len d + len (flat_map (frame 60) cs ++ tail) + 4 <? 4) with false by lia.
+  replace (len d + len (flat_map (frame 60) cs ++ tail) + 4 <? len d + 4) with false by lia.
+  destruct cs as [|c cs].
+  - cbn [flat_map app cont_opt]. unfold starts_continue in Hnc. rewrite Hnc. reflexivity.
+  - assert (Hsc : (4 <? len (flat_map (frame 60) (c :: cs) ++ tail))
+                  && (u16_at (flat_map (frame 60) (c :: cs) ++ tail) 0 =? 60) = true).
+    { cbn [flat_map]. rewrite <- app_assoc.
+      cbn [forallb] in Hcs. apply andb_true_iff in Hcs. destruct Hcs as [Hc _].
+      destruct (frame_fields 60 c (flat_map (frame 60) cs ++ tail)) as (G0 & _ & GL & _);
+        [lia|].
+      rewrite G0, GL, len_app. destruct tail; [congruence|]. rewrite len_cons.
+      apply andb_true_iff. split; [lia | reflexivity]. }
+    rewrite Hsc. cbn [cont_opt].
     rewrite (take_conts_ok (c :: cs) tail _ [] Hcs); [reflexivity | | exact Ht | exact Hnc].
     rewrite app_length. pose proof (length_frames (c :: cs)) as HF. unfold bytes in *. lia.
 Qed.
@@ -1361,7 +1469,7 @@ Lemma wb_sheet_label : forall d c rest tbl fp cells,
 Proof. reflexivity. Qed.
 Lemma wb_sheet_string : forall d c rest tbl fp cells,
   wb_sheet (Ok (519, d, c) :: rest) tbl fp cells =
-  do s <- parse_string d;
+  do s <- string_arm d c;
   wb_sheet rest tbl fp (cells ++ [(fst fp, snd fp, s)]).
 Proof. reflexivity. Qed.
 Lemma wb_sheet_formula_stub : forall row col c rest tbl fp cells,
@@ -1405,7 +1513,7 @@ Proof.
   intros [|c cells] later Hl.
   - cbn [flat_map app]. apply frame_not_continue; [lia | len_small].
   - cbn [flat_map forallb] in *. apply andb_true_iff in Hl. destruct Hl as [Hc _].
-    rewrite <- app_assoc. destruct c as [r c i | r c hb us | r c hb us]; cbn [cell_records legal_cell] in *.
+    rewrite <- app_assoc. destruct c as [r c i | r c hb us | r c hb us cuts]; cbn [cell_records legal_cell] in *.
     + apply frame_not_continue; [lia | len_small].
     + apply andb_true_iff in Hc. destruct Hc as [_ Hb]. apply frame_not_continue; lia.
     + rewrite <- app_assoc. apply frame_not_continue; [lia | len_small].
@@ -1423,7 +1531,7 @@ Proof.
   - cbn [flat_map forallb] in *. apply andb_true_iff in Hl. destruct Hl as [Hc Hl].
     pose proof (cells_not_continue cells later Hl) as Hnc.
     rewrite <- app_assoc.
-    destruct c as [r c i | r c hb us | r c hb us]; cbn [cell_records legal_cell cell_text] in *.
+    destruct c as [r c i | r c hb us | r c hb us cuts]; cbn [cell_records legal_cell cell_text] in *.
     + rewrite records_plain; [| len_small | exact Hnc].
       rewrite wb_sheet_labelsst, parse_label_sst_body by lia. cbn [obind].
       rewrite (IH later tbl fp _ Hl Hlater), <- app_assoc. do 2 f_equal.
@@ -1432,13 +1540,22 @@ Proof.
       rewrite records_plain; [| lia | exact Hnc].
       rewrite wb_sheet_label, (parse_label_ok r c 15 hb us Hx). cbn [obind].
       rewrite (IH later tbl fp _ Hl Hlater), <- app_assoc. reflexivity.
-    + apply andb_true_iff in Hc. destruct Hc as [Hx Hb].
+    + apply andb_true_iff in Hc. destruct Hc as [Hc Hcs].
+      apply andb_true_iff in Hc. destruct Hc as [Hx Hb].
       rewrite <- app_assoc.
-      rewrite records_plain; [| len_small | apply frame_not_continue; lia].
+      rewrite records_plain;
+        [| len_small | unfold frame_rec; rewrite <- app_assoc; apply frame_not_continue; lia].
       rewrite wb_sheet_formula_stub.
-      rewrite records_plain; [| lia | exact Hnc].
+      assert (Hne : flat_map cell_records cells ++ eof_rec ++ later <> []).
+      { destruct (flat_map cell_records cells); cbn; discriminate. }
+      rewrite (records_step _ _ _
+                 (next_record_conts 519 (fstring_encode us hb cuts) _
+                    ltac:(apply N.leb_le; exact Hb) Hcs Hne Hnc)).
       rewrite wb_sheet_string.
-      rewrite <- (app_nil_r (xl_string hb us)), (parse_string_ok hb us [] Hx). cbn [obind fst snd].
+      match goal with |- context [string_arm ?a ?b] =>
+        replace (string_arm a b) with (Ok (utf16_decode us))
+          by (symmetry; exact (fstring_encode_ok us hb cuts Hx)) end.
+      cbn [obind fst snd].
       rewrite (IH later tbl (r, c) _ Hl Hlater), <- app_assoc. reflexivity.
 Qed.
 
@@ -1674,6 +1791,17 @@ Proof.
   destruct (read_u16_total r) as (v & ->); [lia|]. cbn [obind].
   destruct (decode_to (drop 3 r) v (Some (N.odd (nth 2 r 0)))) as [[? ?] ?]. split; discriminate.
 Qed.
+(* the 0x0207 arm, with or without CONTINUE records *)
+Theorem no_panic_string_arm : forall d c,
+  string_arm d c <> Panic /\ string_arm d c <> OutOfFuel.
+Proof.
+  intros d c. unfold string_arm. destruct c as [conts|]; [|apply no_panic_parse_string].
+  destruct (len d <? 3) eqn:E; [apply no_panic_parse_string|].
+  destruct (read_u16_total d) as (v & ->); [lia|]. cbn [obind].
+  pose proof (read_dbcs_total (drop 3 d, conts) v (N.odd (nth 2 d 0))) as [H1 H2].
+  destruct (read_dbcs (drop 3 d, conts) v (N.odd (nth 2 d 0))); cbn [obind];
+    try congruence; split; discriminate.
+Qed.
 Theorem no_panic_parse_label : forall r,
   parse_label r <> Panic /\ parse_label r <> OutOfFuel.
 Proof.
@@ -1810,8 +1938,8 @@ Proof.
       destruct (parse_label d); cbn [obind]; try congruence; try (split; discriminate).
       apply IH; assumption. }
     destruct (t =? 519).
-    { pose proof (no_panic_parse_string d) as [H1 H2].
-      destruct (parse_string d); cbn [obind]; try congruence; try (split; discriminate).
+    { pose proof (no_panic_string_arm d c) as [H1 H2].
+      destruct (string_arm d c); cbn [obind]; try congruence; try (split; discriminate).
       apply IH; assumption. }
     destruct (t =? 6).
     { destruct (len d <? 20) eqn:E; [split; discriminate|].
@@ -1913,17 +2041,35 @@ Lemma example_record_iter :
    Ok (10, [], None)].
 Proof. split; vm_compute; reflexivity. Qed.
 
+(* a formula's string result "h", U+1F600, "é", "i": 16-bit in the STRING record up to the lead
+   surrogate, the trail surrogate in a 16-bit CONTINUE record, the rest compressed in a second one
+   (the STRING record starts 16-bit and goes on compressed); the same with a trailing CONTINUE
+   record that holds nothing but its flag byte *)
+Lemma example_fstring :
+  legal_fstring [104; 55357; 56832; 233; 105] true [(2%nat, true); (1%nat, false)] = true /\
+  fstring_encode [104; 55357; 56832; 233; 105] true [(2%nat, true); (1%nat, false)] =
+    ([5; 0; 1; 104; 0; 61; 216], [[1; 0; 222]; [0; 233; 105]]) /\
+  string_arm [5; 0; 1; 104; 0; 61; 216] (Some [[1; 0; 222]; [0; 233; 105]]) =
+    Ok [104; 128512; 233; 105] /\
+  string_arm [5; 0; 1; 104; 0; 61; 216] (Some [[1; 0; 222]; [0; 233; 105]; [1]]) =
+    Ok [104; 128512; 233; 105] /\
+  records (frame_rec 519 (fstring_encode [104; 55357; 56832; 233; 105] true
+                            [(2%nat, true); (1%nat, false)]) ++ frame 10 []) =
+    [Ok (519, [5; 0; 1; 104; 0; 61; 216], Some [[1; 0; 222]; [0; 233; 105]]); Ok (10, [], None)].
+Proof. repeat split; vm_compute; reflexivity. Qed.
+
 (* a whole workbook: two sheets (one name with a NUL and a CJK character), LABELSST cells to every
    string, to the empty string and past the table, a LABEL and a FORMULA+STRING cell *)
 Definition ex_sheets : list sheet_spec :=
   [mkSheet true [83; 0; 20013]
            [CSst 0 0 0; CSst 1 2 1; CSst 2 0 2; CSst 3 0 9; CLabel 4 1 false [104; 105];
-            CFString 6 2 true [55357; 56832]];
+            CFString 6 2 true [55357; 56832] [];
+            CFString 7 1 false [104; 55357; 56832; 233; 105] [(1%nat, true); (1%nat, true); (1%nat, false)]];
    mkSheet false [66] [CSst 5 5 2]].
 Lemma example_workbook :
   legal_workbook ex_strs ex_lay ex_sheets = true /\
   wb_spec ex_strs ex_sheets =
   [([83; 20013], [(0, 0, [104; 233; 233; 128512; 122]); (2, 0, [65279; 20013; 97]);
-                  (4, 1, [104; 105]); (6, 2, [128512])]);
+                  (4, 1, [104; 105]); (6, 2, [128512]); (7, 1, [104; 128512; 233; 105])]);
    ([66], [(5, 5, [65279; 20013; 97])])].
 Proof. split; vm_compute; reflexivity. Qed.
